@@ -389,6 +389,19 @@ pub fn build(id: &str, tier: &str, seed: u64, threads: usize) -> Option<Plan> {
                 fam_single(b, false, 1, &mut cases);
                 if b.spec.role == Role::Recv {
                     fam_strays(b, &mut cases);
+                    // the same receiver scenarios with keep-on-error in force, plus a sender that pauses (its timer is
+                    // longer than the receiver's timeout) - the ACK cadence must not depend on the clean-up policy
+                    let mut v = Vec::new();
+                    fam_strays(b, &mut v);
+                    fam_single(b, false, 0, &mut v);
+                    if b.spec.w <= 8 {
+                        fam_timers(b, false, &mut v);
+                    }
+                    for mut c in v {
+                        c.clean = false;
+                        c.label = format!("{}:keep", c.label);
+                        cases.push(c);
+                    }
                 }
                 if !q {
                     fam_random(b, &mut rng, 300, 5, &mut cases);
